@@ -352,8 +352,52 @@ fn handoff_vs_cancel(e: &'static Engine, workers: usize, reader: bool) {
     e.note(&format!("w={} store_buffer={}", if rw.is_ok() { "ok" } else { "cancel" }, e.tso_used()));
 }
 
+/// the drop of a read guard finds the reader mutex held (another reader is held, by a breakpoint, inside the reader-count
+/// critical section of read()) and its coroutine is cancelled while it waits there; the other reader is then let go, so
+/// that the hand-off of the reader mutex meets the wake-up of the cancel
+fn read_drop_cancelled(e: &'static Engine, workers: usize) {
+    rt_init(workers);
+    let l: &'static RwLock<u32> = Box::leak(Box::new(RwLock::new(0)));
+    let sem: &'static may::sync::Semphore = Box::leak(Box::new(may::sync::Semphore::new(0)));
+    e.begin();
+    let a = go!(move || {
+        let g = l.read().unwrap();
+        sem.wait();
+        drop(g);
+        // a cancellable call
+        may::coroutine::sleep(std::time::Duration::from_millis(1));
+    });
+    // A holds its read guard and waits for the permit
+    e.quiesce();
+    let bp = e.break_at("rwlock.read.counting");
+    let b = e.spawn("reader", move || {
+        let g = l.read().unwrap();
+        enter_r();
+        leave_r();
+        drop(g);
+    });
+    e.wait_label("rwlock.read.counting");
+    sem.post();
+    // A is queued on the reader mutex, inside the drop of its guard
+    e.quiesce();
+    unsafe { a.coroutine().cancel() };
+    e.release(bp);
+    let ra = a.join();
+    if let Err(p) = &ra {
+        if p.downcast_ref::<generator::Error>().is_none() {
+            e.fail("unexpected_panic", "the cancelled reader ended with a panic that is not Cancel");
+        }
+    }
+    e.join(b);
+    probe(e, l);
+    e.note(&format!("a={}", if ra.is_ok() { "ok" } else { "cancel" }));
+}
+
 pub fn build(quick: bool) -> Vec<Scenario> {
     let mut v = vec![];
+    for w in [1usize, 2] {
+        v.push(Scenario::new("C12", "rwlock_read_drop_cancelled", format!("rwlock.read_guard_drop_cancelled.reader_mutex_held.w{}", w), Arc::new(move |e| read_drop_cancelled(e, w))).bound(2));
+    }
     for w in [1usize, 2] {
         v.push(Scenario::new("C12", "rwlock_store_buffer", format!("rwlock.handoff_vs_cancel.writer.store_buffer.w{}", w), Arc::new(move |e| handoff_vs_cancel(e, w, false))).tso(&["src/sync/blocking.rs"]).bound(2));
     }
